@@ -705,6 +705,7 @@ func (fr *Frame) rangeStmt(st *State, n *ast.RangeStmt, label string) flow {
 	case *types.Map:
 		isMapR = true
 		_ = tt
+		fr.guardedMapAccess(st, n, coll, "range")
 	case *types.Basic:
 		if tt.Info()&types.IsInteger != 0 {
 			count = coll.T
